@@ -3,7 +3,7 @@
 (* Enumerates bounded input spaces of the whitespace functions for replay  *)
 (* into the real code (C10, C11, C14).  Slots refer to the concretisation  *)
 (* alphabets of the harness ("ws": space, tab, NBSP, ideographic space, a, *)
-(* b, ZWSP, e+acute, CRLF; "asciiws": space, tab, LF, VT, FF, CR, a, US, CRLF; "cleanpair": space, a, b, a-umlaut, e+acute).   *)
+(* b, ZWSP, e+acute, CRLF; "asciiws": space, tab, LF, VT, FF, CR, a, US, CRLF; "fuse": space, tab, regional indicators D / E, Hangul L / V, a, b, flag DE; "cleanpair": space, a, b, a-umlaut, e+acute).   *)
 (***************************************************************************)
 EXTENDS Naturals, Sequences, FiniteSets, SequencesExt, TLC, Json, IOUtils
 CONSTANTS MaxLen
@@ -11,7 +11,7 @@ SeqsOver(S, n) == UNION {[1..k -> S] : k \in 0..n}
 
 \* (TLC evaluates every constant-level definition at start-up: each family is guarded)
 Fam(f) == IOEnv.FAMILY = f
-CleanCases == IF ~Fam("clean") THEN {} ELSE {[kind |-> "clean", alpha |-> a, slots |-> s, g |-> g] : s \in SeqsOver(1..9, MaxLen), g \in BOOLEAN, a \in {"ws", "asciiws"}}
+CleanCases == IF ~Fam("clean") THEN {} ELSE {[kind |-> "clean", alpha |-> a, slots |-> s, g |-> g] : s \in SeqsOver(1..9, MaxLen), g \in BOOLEAN, a \in {"ws", "asciiws", "fuse"}}
 
 \* a clean text = content with a subset of gaps filled by one space (slot 1)
 RECURSIVE Spaced(_, _, _)
